@@ -69,6 +69,52 @@ impl IterCfg {
 pub enum DrvOp {
     Next,
     Recover,
+    /// `allow_errors` with this mask (replaces the tolerated set)
+    Allow(u8),
+    /// `set_max_allowable_tag_size` with entry k of `RECONF_SIZES`
+    MaxSize(u8),
+    /// `emit_master_end_when_eof`
+    EofEnd(bool),
+}
+
+/// size limits a mid-stream reconfiguration can choose from (index 0 = no limit... kept small, see C05 assumptions)
+pub const RECONF_SIZES: [Option<usize>; 8] = [Some(1 << 20), Some(0), Some(1), Some(8), Some(64), Some(1000), Some(70_000), Some(300)];
+
+impl DrvOp {
+    fn to_s(&self) -> String {
+        match self {
+            DrvOp::Next => "n".into(),
+            DrvOp::Recover => "r".into(),
+            DrvOp::Allow(m) => format!("a{}", m & 7),
+            DrvOp::MaxSize(k) => format!("m{}", k & 7),
+            DrvOp::EofEnd(true) => "e".into(),
+            DrvOp::EofEnd(false) => "E".into(),
+        }
+    }
+    fn parse(s: &str) -> Vec<DrvOp> {
+        let cs: Vec<char> = s.chars().collect();
+        let mut out = Vec::new();
+        let mut i = 0;
+        while i < cs.len() {
+            let d = |j: usize| cs.get(j).and_then(|c| c.to_digit(10)).unwrap_or(0) as u8 & 7;
+            match cs[i] {
+                'r' => out.push(DrvOp::Recover),
+                'a' => {
+                    out.push(DrvOp::Allow(d(i + 1)));
+                    i += 1;
+                }
+                'm' => {
+                    out.push(DrvOp::MaxSize(d(i + 1)));
+                    i += 1;
+                }
+                'e' => out.push(DrvOp::EofEnd(true)),
+                'E' => out.push(DrvOp::EofEnd(false)),
+                _ => out.push(DrvOp::Next),
+            }
+            i += 1;
+        }
+        out
+    }
 }
 
 /// Driver policy for the reader.
@@ -91,7 +137,7 @@ impl Driver {
             Driver::UntilEnd { extra } => json!({"until_end": extra}),
             Driver::Recovering { max_errors, extra } => json!({"recovering": max_errors, "extra": extra}),
             Driver::Streaming { extra } => json!({"streaming": extra}),
-            Driver::Script(ops) => json!({"script": ops.iter().map(|o| match o { DrvOp::Next => "n", DrvOp::Recover => "r" }).collect::<Vec<_>>().join("")}),
+            Driver::Script(ops) => json!({"script": ops.iter().map(|o| o.to_s()).collect::<Vec<_>>().join("")}),
         }
     }
     pub fn from_j(j: &J) -> Result<Driver, String> {
@@ -102,7 +148,7 @@ impl Driver {
         } else if let Some(e) = j.get("streaming") {
             Ok(Driver::Streaming { extra: e.as_u64().ok_or("streaming")? as usize })
         } else if let Some(s) = j.get("script").and_then(|v| v.as_str()) {
-            Ok(Driver::Script(s.chars().map(|c| if c == 'r' { DrvOp::Recover } else { DrvOp::Next }).collect()))
+            Ok(Driver::Script(DrvOp::parse(s)))
         } else {
             Err("driver".into())
         }
@@ -117,6 +163,8 @@ pub enum Ev {
     None,
     RecoverOk,
     RecoverErr(ErrV),
+    /// a configuration call was made (no result)
+    Cfg,
     Panic(String),
 }
 
@@ -128,6 +176,7 @@ impl Ev {
             Ev::None => "None".into(),
             Ev::RecoverOk => "RecoverOk".into(),
             Ev::RecoverErr(e) => format!("RecoverErr({})", e.short()),
+            Ev::Cfg => "Cfg".into(),
             Ev::Panic(m) => format!("PANIC({})", m),
         }
     }
@@ -235,7 +284,7 @@ fn panic_msg(p: Box<dyn std::any::Any + Send>) -> String {
     }
 }
 
-fn configure<R: std::io::Read, T: Spec>(it: &mut TagIterator<R, T>, cfg: &IterCfg) {
+fn allow_list(cfg: &IterCfg) -> Vec<AllowableErrors> {
     let mut allow = Vec::new();
     if cfg.allow & ALLOW_IDS != 0 {
         allow.push(AllowableErrors::InvalidTagIds);
@@ -246,6 +295,11 @@ fn configure<R: std::io::Read, T: Spec>(it: &mut TagIterator<R, T>, cfg: &IterCf
     if cfg.allow & ALLOW_OVERSIZE != 0 {
         allow.push(AllowableErrors::OversizedTags);
     }
+    allow
+}
+
+fn configure<R: std::io::Read, T: Spec>(it: &mut TagIterator<R, T>, cfg: &IterCfg) {
+    let allow = allow_list(cfg);
     if !allow.is_empty() {
         it.allow_errors(&allow);
     }
@@ -389,6 +443,20 @@ pub fn run_reader_t<T: Spec>(s: &ReaderSetup) -> RTrace {
                 let ev = match op {
                     DrvOp::Next => do_next(&mut it),
                     DrvOp::Recover => do_recover(&mut it),
+                    DrvOp::Allow(m) => {
+                        let c = IterCfg { allow: *m & 7, ..Default::default() };
+                        let mut allow = allow_list(&c);
+                        it.allow_errors(&std::mem::take(&mut allow));
+                        Ev::Cfg
+                    }
+                    DrvOp::MaxSize(k) => {
+                        it.set_max_allowable_tag_size(RECONF_SIZES[(*k & 7) as usize]);
+                        Ev::Cfg
+                    }
+                    DrvOp::EofEnd(b) => {
+                        it.emit_master_end_when_eof(*b);
+                        Ev::Cfg
+                    }
                 };
                 push!(ev);
             }
